@@ -30,6 +30,7 @@ def run(ctx):
     r3_framing(ctx)
     r4_arff_keywords(ctx)
     r5_quote_symmetry(ctx)
+    r6_missing_positions(ctx)
 
 
 def _nested(fn, name):
@@ -237,7 +238,56 @@ def r5_quote_symmetry(ctx):
            detail={"independent_blocks": [q for q, _ in blocks], "quote_tests_found": len(nested)}, stmt="quote blocks")
 
 
+def _marker_tests(e, marker="?"):
+    """{(position, text of the string tested)} for the '?'-field tests in expression e: prefix X[:2]=='?,', infix ',?,' in X, suffix X[-2:]==',?'"""
+    out = set()
+    for c in ast.walk(e):
+        if not (isinstance(c, ast.Compare) and len(c.ops) == 1):
+            continue
+        l, r, op = c.left, c.comparators[0], c.ops[0]
+        if isinstance(op, ast.In) and const_str(l) == f",{marker},":
+            out.add(("infix", unparse(r)))
+        if isinstance(op, ast.Eq):
+            for a, b in ((l, r), (r, l)):
+                if isinstance(a, ast.Subscript) and isinstance(a.slice, ast.Slice) and const_str(b) in (f"{marker},", f",{marker}"):
+                    sl = a.slice
+                    if const_str(b) == f"{marker}," and sl.lower is None and sl.upper is not None and unparse(sl.upper) == "2":
+                        out.add(("prefix", unparse(a.value)))
+                    if const_str(b) == f",{marker}" and sl.upper is None and sl.lower is not None and unparse(sl.lower) == "-2":
+                        out.add(("suffix", unparse(a.value)))
+    return out
+
+
+def r6_missing_positions(ctx):
+    ctx.rule("C12.R6", "ArffDataReader._dense flags a row as missing when a bare `?` field is first, interior or last: the raw line is tested for the "
+                       "leading and trailing form, and the whitespace-compacted line for all three positions (a one-sided test contradicts the belief, "
+                       "stated by the fast path, that position matters)")
+    fn = ctx.fn(RDR, "ArffDataReader._dense")
+    stores = [x for x in ast.walk(fn) if isinstance(x, ast.Assign) and isinstance(x.targets[0], ast.Name) and isinstance(x.value, (ast.BoolOp, ast.Compare))
+              and _marker_tests(x.value)]
+    ctx.floor("C12.R6", "whitespace-tolerant missing tests in ArffDataReader._dense", len(stores), 1)
+    for st in stores:
+        tests = _marker_tests(st.value)
+        subjects = {t for _, t in tests}
+        for subj in sorted(subjects):
+            pos = {p_ for p_, t in tests if t == subj}
+            # the subject must be the compacted line (bound to <line>.translate(...)) or that expression itself
+            compact = "translate" in subj or any("translate" in unparse(v) for v in assigned_value(fn, subj)) if subj.isidentifier() else "translate" in subj
+            ctx.ob("C12.R6", RDR, "ArffDataReader._dense", st, "the whitespace-compacted line is tested for a leading, an interior and a trailing `?` field",
+                   pos == {"prefix", "infix", "suffix"} and compact, detail={"tested": sorted(pos), "subject": subj}, stmt="compact missing test")
+    raw = set()
+    for x in ast.walk(fn):
+        if isinstance(x, ast.If):
+            raw |= {(p_, t) for p_, t in _marker_tests(x.test)}
+    ctx.ob("C12.R6", RDR, "ArffDataReader._dense", fn, "the fast path tests the raw line for the leading and the trailing form", {p_ for p_, _ in raw} >= {"prefix", "suffix"},
+           detail={"raw": sorted(raw)}, stmt="raw missing tests")
+    sp = ctx.fn(RDR, "ArffDataReader._sparse")
+    txt = unparse(sp)
+    ctx.ob("C12.R6", RDR, "ArffDataReader._sparse", sp, "sparse rows: a `?` value is recognised before a comma and before the closing brace", "' ?,' in" in txt and "' ?}'" in txt, stmt="sparse missing tests")
+
+
 CONTROLS = [
+    ("only interior ? after compaction", RDR, M.replace_expr("ArffDataReader._dense", "compact[:2] == '?,' or ',?,' in compact or compact[-2:] == ',?'", "',?,' in compact"), "C12.R6"),
     ("quote checks chained", RDR, lambda tree: _chain_quote_ifs(tree), "C12.R5"),
     ("decompressor per chunk", SRC, M.replace_expr("HttpSource._byte_it_", "decomp(chunk)", "zlib.decompressobj(16 + zlib.MAX_WBITS).decompress(chunk)"), "C12.R1"),
     ("utf-8 keyword case sensitive", RDR, M.replace_expr("ArffAttrReader._encoder", "encoding.lower() in numeric_types", "encoding in numeric_types"), "C12.R4"),
